@@ -7,6 +7,16 @@
      <id> PRIM salsa <key> <nonce8> <data>                 -> <id> <out>
      <id> PRIM chachapoly|gcm <key> <nonce12> <pt> <aad>   -> <id> <sealed>
      <id> PRIMOPEN chachapoly|gcm <key> <nonce12> <ct> <aad> -> <id> <pt> | fail
+     <id> SESS <m> <configured limit dec, may be <= 0> <unordered 0|1> <op>...
+        a Session built by make_session with that limit, one stream (sequence counter from 0);
+        the padding lengths are the ones read off the wire (or, for a refused notice, off the
+        log of bytes drawn), everything else is predicted:
+          W:<len>:<pad,pad,..|->           Stream.Write of len bytes
+          R:<avail>:<n,n,..|->:<pad,..|->  Stream.ReadFrom (reader script as in the Go driver)
+          X:<b>:<draw>                     Stream.Close: filler byte b, RandInt result draw
+          K:<b>:<draw>                     Session.Close (own numbering: seq 0)
+        -> <id> cfg=<limit>,<unit>,<sendbuf>,<recvbuf> offer=<n|panic>
+                <op><i>=<n>|<end>|<payload len>:<message len>,..|<sequence counter afterwards>
    m = 0 plain, 1 aes-256-gcm, 2 chacha20-poly1305, 3 aes-128-gcm (Cloak's method codes) *)
 let meth = function
   | "0" -> Plain | "1" -> AES256GCM | "2" -> ChaCha20Poly1305 | "3" -> AES128GCM
@@ -19,10 +29,61 @@ let show_result = function
   | Err ErrExtraLen -> "err:extralen"
   | Err ErrAuth -> "err:auth"
   | Panic -> "panic"
+let int_of_z = function Z0 -> 0 | Zpos p -> int_of_pos p | Zneg p -> - (int_of_pos p)
+let ints s = if s = "-" || s = "" then [] else List.map int_of_string (split_on ',' s)
+let show_end = function
+  | EndOk -> "ok" | EndShortBuffer -> "short" | EndObfsError -> "obfs" | EndReaderEOF -> "eof"
+  | EndPanic -> "panic" | EndFuel -> "fuel"
+let show_plan name (p : plan) =
+  Printf.sprintf "%s=%d|%s|%s|%s" name (int_of_z p.p_n) (show_end p.p_end)
+    (if p.p_msgs = [] then "-" else
+       String.concat "," (List.map (fun (a, b) -> Printf.sprintf "%d:%d" (int_of_z a) (int_of_z b)) p.p_msgs))
+    (hex_of_n p.p_seq)
+(* the k-th obfuscate call of an operation starting at sequence number seq: RandInt returned
+   pads[k] (0 when the wire showed fewer messages) and rand.Read was asked for pad_len + tag bytes *)
+let draws_of tag seq pads =
+  let arr = Array.of_list pads in
+  let seqs = Array.make (Array.length arr + 1) seq in
+  for i = 1 to Array.length arr do seqs.(i) <- next_seq seqs.(i - 1) done;
+  fun (k : nat) ->
+    let i = int_of_nat k in
+    let d = if i < Array.length arr then arr.(i) else 0 in
+    let s = if i < Array.length seqs then seqs.(i) else seq in
+    let d = n_of_int (max d 0) in
+    (d, z_of_int (int_of_n (pad_len s d) + tag))
+let sess m limit unordered ops =
+  let ss = make_session (z_of_int limit) in
+  let tag = int_of_z (tag_len_of (payload_cipher (meth m) [])) in
+  let ztag = z_of_int tag in
+  let buf = Buffer.create 256 in
+  Buffer.add_string buf (Printf.sprintf "cfg=%d,%d,%d,%d offer=%s" (int_of_z ss.ss_limit) (int_of_z ss.ss_unit)
+    (int_of_z ss.ss_sendbuf) (int_of_z ss.ss_recvbuf)
+    (match read_from_offer ss with Some n -> string_of_int (int_of_z n) | None -> "panic"));
+  let seq = ref N0 in
+  List.iteri (fun i op ->
+    let add name p = Buffer.add_string buf (" " ^ show_plan (Printf.sprintf "%s%d" name i) p) in
+    match split_on ':' op with
+    | ["W"; len; pads] ->
+      let p = stream_write_plan ss unordered ztag !seq (z_of_int (int_of_string len)) (draws_of tag !seq (ints pads)) in
+      seq := p.p_seq; add "W" p
+    | ["R"; avail; sizes; pads] ->
+      let p = read_from_plan ss ztag !seq (z_of_int (int_of_string avail)) (List.map z_of_int (ints sizes)) O
+                (draws_of tag !seq (ints pads)) in
+      seq := p.p_seq; add "R" p
+    | ["X"; b; d] ->
+      let p = closing_notice_plan ss ztag !seq (n_of_int (int_of_string b)) (draws_of tag !seq [int_of_string d] O) in
+      seq := p.p_seq; add "X" p
+    | ["K"; b; d] ->
+      let p = closing_notice_plan ss ztag N0 (n_of_int (int_of_string b)) (draws_of tag N0 [int_of_string d] O) in
+      add "K" p
+    | _ -> Buffer.add_string buf " badop") ops;
+  Buffer.contents buf
 let mkframe sid sq cl pl =
   { f_sid = n_of_hex sid; f_seq = n_of_hex sq; f_closing = n_of_hex cl; f_payload = bytes_of_hex pl }
 let () = iter_lines (fun line ->
   match split_ws line with
+  | id :: "SESS" :: m :: limit :: unordered :: ops ->
+    Printf.printf "%s %s\n" id (sess m (int_of_string limit) (unordered = "1") ops)
   | [id; "ENC"; m; key; sid; sq; cl; pl; pad; rnd] ->
     (match encode (meth m) (bytes_of_hex key) (mkframe sid sq cl pl) (n_of_int (int_of_string pad)) (bytes_of_hex rnd) with
      | Some msg -> Printf.printf "%s %s\n" id (hex_of_bytes msg)
